@@ -37,10 +37,10 @@ Lemma zip4_spike n lock : forall thr x v r,
 Proof.
   remember (lif_elem RN n lock) as f eqn:Hf.
   induction thr as [|t thr IH]; intros [|x0 x] [|v0 v] [|r0 r] Hrt Hdt Hr; simpl; try (split; [reflexivity|constructor]).
-  inversion Hr as [|? ? H1 H2]; subst. destruct (IH x v r Hrt Hdt H2) as [E F].
+  pose proof (Forall_inv Hr) as H1. pose proof (Forall_inv_tail Hr) as H2. destruct (IH x v r Hrt Hdt H2) as [E F].
   destruct (lif_elem_spike n lock t x0 v0 r0 Hrt Hdt H1) as [E1 F1]. rewrite <- Hf in E1, F1.
   split.
-  - rewrite E1, E. reflexivity.
+  - f_equal; [f_equal; exact E1|exact E].
   - constructor; auto.
 Qed.
 
@@ -96,6 +96,8 @@ Proof.
   destruct (Rltb'_spec (0 - n_dt RN n) 0); [|lra].
   destruct lock; simpl; match goal with |- context [negb (?a && ?b)] => destruct (a && b) end; simpl; auto.
 Qed.
+Lemma quiet_arith (a b c : R) : a + (a - a - b * (0 * 1)) * c + b * (0 * 1) = a.
+Proof. ring. Qed.
 Lemma lif_elem_quiet n thr :
   0 < n_dt RN n -> n_rest RN n < thr ->
   fst (fst (lif_elem RN n true thr 0 (n_rest RN n) 0)) = false.
@@ -103,13 +105,13 @@ Proof.
   intros Hdt Hth. unfold lif_elem, voltage_thresholding_constant, voltage_integration_linear. rn_unfold. cbv zeta.
   destruct (Rltb'_spec (0 - n_dt RN n) 0); [|lra].
   rewrite Reqb'_refl. simpl.
-  match goal with |- Rleb' thr ?e = false => replace e with (n_rest RN n) by (unfold b2t; rn_simpl; ring) end.
+  rewrite quiet_arith.
   destruct (Rleb'_spec thr (n_rest RN n)); auto. lra.
 Qed.
 
 Definition n0 : neuron RN :=
   mkNeuron RN [1%nat] 1%nat 1 0 (-1) 1 0 1 1 None true [0] [0] [].
-Definition x0 : tensor RN := mkT [1%nat; 1%nat] [0].
+Definition x0 : tensor RN := @mkT RN [1%nat; 1%nat] [0].
 
 (* spike_attr_refuted: a LIF group with refrac_t = 0, at rest, receiving zero current: forward returns "no spike",
    the spike attribute afterwards says "spike" *)
@@ -121,12 +123,66 @@ Proof.
   2:{ unfold neuron_step in E. simpl in E. discriminate. }
   exists n', z. split; [unfold NI; simpl; repeat split; auto; congruence|]. split; [reflexivity|]. split; [reflexivity|].
   destruct (neuron_step_inv RN _ _ _ _ _ E) as (_ & _ & Z & _ & R' & S' & B' & _ & T' & _).
-  simpl in Z, R', T'.
+  assert (Hz : zip4 RN (lif_elem RN n0 (k_lock nkw0)) (concat (repeat (thresholds RN n0) (n_B RN n0))) (tel x0)
+                 (n_volt RN n0) (n_refr RN n0) = [lif_elem RN n0 true 1 0 0 0]) by reflexivity.
+  rewrite Hz in Z, R'. clear Hz.
   assert (Q : fst (fst (lif_elem RN n0 true 1 0 0 0)) = false).
   { apply (lif_elem_quiet n0 1); simpl; lra. }
   assert (P : snd (lif_elem RN n0 true 1 0 0 0) = 0).
   { apply (lif_elem_rt0 n0 true 1 0 0); simpl; auto; lra. }
   split.
-  - rewrite Z. simpl. rewrite Q. reflexivity.
-  - unfold neuron_spike. rewrite R', T'. simpl. rewrite P. rn_simpl. rewrite Reqb'_refl. reflexivity.
+  - rewrite Z. cbn [tel map]. rewrite Q. reflexivity.
+  - unfold neuron_spike. rewrite R', T'. cbn [tel map]. rewrite P. change (n_refrac_t RN n0) with 0.
+    rn_simpl. rewrite Reqb'_refl. reflexivity.
+Qed.
+
+(* ---------- the same at the level of the layer: a RecurrentSerial of refrac_t = 0 groups does NOT compute the
+   documented recurrence.  One feed-forward and one feedback neuron, zero drive, first step: no neuron fires, yet the
+   lateral connection is fed "the feed-forward neuron fired" and the stored feedback says "the feedback neuron fired". *)
+Definition c0 : dense RN := mkDense RN [1%nat] [1%nat] 1%nat 1 1 [[1]] None None [[false]] 0%nat.
+Definition R0 : recurrent (tensor RN) (dense RN) (neuron RN) :=
+  mkRecurrent (tensor RN) (dense RN) (neuron RN) (mkLayer [] []) None 1%Z 2%Z 3%Z 1%Z 2%Z
+    (fun _ => x0) (fun y => y) (fun _ => x0) (fun s => [s]) (fun s => [s]).
+Definition q0 := mkRstate (tensor RN) (dense RN) (neuron RN) c0 c0 c0 n0 n0 None.
+Definition fwd_spec (attr : bool) :=
+  rspec_forward (tensor RN) (dense RN) (neuron RN) unit nkw tt nkw0 (dense_step RN) (neuron_step RN)
+    (neuron_spike RN) (tzeros_like RN) (tadd RN) attr R0 q0 [x0] [] [] None None None None None.
+Definition fwd_layer :=
+  recurrent_forward (tensor RN) (dense RN) (neuron RN) unit nkw tt nkw0 (dense_step RN) (neuron_step RN)
+    (neuron_spike RN) (tzeros_like RN) (tadd RN) (r_of (tensor RN) (dense RN) (neuron RN) R0 q0)
+    [x0] [] [] None None None None None.
+
+Lemma P00 : snd (lif_elem RN n0 true 1 (0 + 0) 0 0) = 0.
+Proof. apply (lif_elem_rt0 n0 true 1 (0 + 0) 0); simpl; auto; lra. Qed.
+Lemma Q00 : fst (fst (lif_elem RN n0 true 1 (0 + 0) 0 0)) = false.
+Proof. replace (0 + 0) with 0 by lra. apply (lif_elem_quiet n0 1); simpl; lra. Qed.
+Lemma nz1 : nz RN 1 = true.
+Proof. unfold nz. rn_simpl. rewrite (Reqb'_neq 1 0) by lra. reflexivity. Qed.
+Lemma nz0 : nz RN 0 = false.
+Proof. unfold nz. rn_simpl. rewrite Reqb'_refl. reflexivity. Qed.
+
+Theorem recurrent_spike_attr_refuted :
+  r_names_ok (tensor RN) (dense RN) (neuron RN) R0 /\
+  exists q_doc out_doc,
+    fwd_spec false = Ok (q_doc, out_doc) /\
+    fwd_layer <> Ok (r_of (tensor RN) (dense RN) (neuron RN) R0 q_doc, out_doc).
+Proof.
+  split; [unfold r_names_ok; simpl; repeat split; discriminate|].
+  destruct (fwd_spec false) as [[q_doc out_doc]|e] eqn:E.
+  2:{ unfold fwd_spec, rspec_forward in E. cbn -[lif_elem nz to_current dot] in E. discriminate. }
+  exists q_doc, out_doc. split; auto.
+  unfold fwd_layer. rewrite recurrent_forward_spec by (unfold r_names_ok; simpl; repeat split; discriminate).
+  fold (fwd_spec true).
+  unfold fwd_spec, rspec_forward in E. cbn -[lif_elem nz to_current dot] in E.
+  unfold fwd_spec, rspec_forward. cbn -[lif_elem nz to_current dot].
+  match type of E with context [lif_elem RN n0 true ?t ?x 0 0] =>
+    set (L := lif_elem RN n0 true t x 0 0) in * end.
+  assert (PL : snd L = 0) by exact P00.
+  assert (QL : fst (fst L) = false) by exact Q00.
+  clearbody L.
+  intros H. inversion E; subst q_doc out_doc; clear E.
+  unfold LayersSpec.r_of, r_with in H. cbn -[lif_elem nz to_current dot] in H.
+  inversion H as [[H1 H2]]. clear - H1 PL QL.
+  destruct L as [[s v] r]. simpl in *. subst s r. rewrite Reqb'_refl in H1.
+  change (nz RN 1 = nz RN 0) in H1. rewrite nz1, nz0 in H1. discriminate.
 Qed.
